@@ -22,7 +22,7 @@ const dir = "pkg/ipam/schedulerplugin/"
 func gen(repo string) (map[string]string, error) {
 	var b strings.Builder
 	b.WriteString(fg.Header("constants and structural facts of the scheduler plugin (model M4-core)",
-		dir+"bind.go", "pkg/ipam/floatingip/ipam_crd.go", "pkg/ipam/floatingip/store_crd.go", dir+"resync.go", dir+"filter.go", dir+"event.go", dir+"util/utils.go", "pkg/api/galaxy/constant/constant.go"))
+		dir+"bind.go", "pkg/ipam/floatingip/ipam_crd.go", "pkg/ipam/floatingip/store_crd.go", "pkg/ipam/server/server.go", dir+"resync.go", dir+"filter.go", dir+"event.go", dir+"util/utils.go", "pkg/api/galaxy/constant/constant.go"))
 	b.WriteString("namespace Galaxy.Generated.Plugin\n\n")
 
 	// ---- constants
@@ -134,6 +134,15 @@ func gen(repo string) (map[string]string, error) {
 		return nil, err
 	}
 	b.WriteString(f)
+	sv, err := fg.ParseFile(repo, "pkg/ipam/server/server.go")
+	if err != nil {
+		return nil, err
+	}
+	sf, err := serverFacts(trace, sv)
+	if err != nil {
+		return nil, err
+	}
+	b.WriteString(sf)
 	tl, err := trace(sc, "crdIpam", "listFloatingIPs")
 	if err != nil {
 		return nil, err
